@@ -65,6 +65,13 @@ def Val.cls : Val → String
 
 def upperC (c : Char) : Char := if 'a' ≤ c ∧ c ≤ 'z' then Char.ofNat (c.toNat - 32) else c
 def upper (s : List Char) : List Char := s.map upperC
+def lowerC (c : Char) : Char := if 'A' ≤ c ∧ c ≤ 'Z' then Char.ofNat (c.toNat + 32) else c
+def lower (s : List Char) : List Char := s.map lowerC
+
+/-- The case fold `parse_boolean` applies before the membership test (method name extracted from the
+source: `.upper()` today). -/
+def fold (s : List Char) : List Char :=
+  if Gen.Cast.boolFold == "upper" then upper s else if Gen.Cast.boolFold == "lower" then lower s else s
 
 def asciiChars (b : List UInt8) : List Char := b.map fun x => Char.ofNat x.toNat
 
@@ -87,10 +94,10 @@ def strOf : Val → Option (List Char)
 /-! ## BOOLEAN (types.py:288-289) -/
 
 def parseBoolean : Val → Except Exc Val
-  | .str s => .ok (.bool (Gen.Cast.boolStrings.contains (String.ofList (upper s))))
-  | .bytes b => .ok (.bool (Gen.Cast.boolBytes.contains (String.ofList (upper (asciiChars b))) && b.all (· < 128)))
-  | .bool b => .ok (.bool (Gen.Cast.boolStrings.contains (String.ofList (upper (renderBool b)))))
-  | .int n => .ok (.bool (Gen.Cast.boolStrings.contains (String.ofList (renderInt n))))
+  | .str s => .ok (.bool (Gen.Cast.boolStrings.contains (String.ofList (fold s))))
+  | .bytes b => .ok (.bool (Gen.Cast.boolBytes.contains (String.ofList (fold (asciiChars b))) && b.all (· < 128)))
+  | .bool b => .ok (.bool (Gen.Cast.boolStrings.contains (String.ofList (fold (renderBool b)))))
+  | .int n => .ok (.bool (Gen.Cast.boolStrings.contains (String.ofList (fold (renderInt n)))))
   | .float bits => .ok (.bool (bits == 0x3FF0000000000000 && Gen.Cast.boolStrings.contains "1.0"))
   | _ => .ok (.bool false)   -- str(x).upper() of dates, decimals …: never a truthy word (compared)
 
@@ -313,23 +320,57 @@ def parseDecimal (p s : Option Nat) (v : Val) : Except Exc Val :=
   | .dec d => factory p s (.inr d)
   | _ => .error .typeError   -- floats go through repr (parameter); other objects: compared as "raises"
 
-/-! ## dispatch (types.py:117-120, 358-373) -/
+/-! ## dispatch (types.py:117-120, 363-378) -/
 
+/-- The `length=` keyword a type carries. -/
+def Ty.length : Ty → Option Nat
+  | .varchar n => n | .blob n => n | _ => none
+def Ty.precision : Ty → Option Nat
+  | .decimal p _ => p | _ => none
+def Ty.scale : Ty → Option Nat
+  | .decimal _ s => s | _ => none
+
+/-- The parser functions of `orso/types.py` by name, applied with the keywords the type carries
+(`parse_bytes` is the BLOB parser; parsers of types outside the statement are not modelled). -/
+def parserByName (floatOfText : List Char → Option UInt64) (t : Ty) (name : String) : Option (Val → Except Exc Val) :=
+  if name == "parse_boolean" then some parseBoolean
+  else if name == "parse_integer" then some parseInteger
+  else if name == "parse_double" then some (parseDouble floatOfText)
+  else if name == "parse_decimal" then some (parseDecimal t.precision t.scale)
+  else if name == "parse_varchar" then some (parseVarchar t.length)
+  else if name == "parse_bytes" then some (parseBlob t.length)
+  else if name == "parse_date" then some (parseTemporal .date)
+  else if name == "parse_timestamp" then some (parseTemporal .timestamp)
+  else none
+
+/-- `ORSO_TO_PYTHON_PARSER[self.value](value, **kwargs)`: the parser is looked up in the table
+extracted from the source on this run. -/
 def parseWith (floatOfText : List Char → Option UInt64) (t : Ty) (v : Val) : Except Exc Val :=
-  match t with
-  | .boolean => parseBoolean v
-  | .integer => parseInteger v
-  | .double => parseDouble floatOfText v
-  | .decimal p s => parseDecimal p s v
-  | .varchar n => parseVarchar n v
-  | .blob n => parseBlob n v
-  | .date => parseTemporal .date v
-  | .timestamp => parseTemporal .timestamp v
+  match (Gen.Cast.parserOf.lookup t.name).bind (parserByName floatOfText t) with
+  | some f => f v
+  | none => .error .typeError   -- no entry (KeyError) or a parser outside the model
 
-/-- `OrsoTypes.<T>.parse(value)`: `none` is Python's `None`. -/
-def parse (floatOfText : List Char → Option UInt64) (t : Ty) : Option Val → Except Exc (Option Val)
-  | none => .ok none
-  | some v => (parseWith floatOfText t v).bind fun r => .ok (some r)
+/-- Python truthiness of a value (`not value`). -/
+def Val.falsy : Val → Bool
+  | .bool b => !b
+  | .int n => n == 0
+  | .float b => b == 0 || b == 0x8000000000000000
+  | .str s => s.isEmpty
+  | .bytes b => b.isEmpty
+  | .dec (.fin _ c _) => c == 0
+  | _ => false
+
+/-- `OrsoTypes.parse(value)` around any parser `run`: the early `return None` under the test
+extracted from the source (`value is None` today), then the parser.  `none` is Python's `None`. -/
+def parseVia (run : Val → Except Exc Val) : Option Val → Except Exc (Option Val)
+  | none => if Gen.Cast.nullGuard True True then .ok none else .error .typeError
+  | some v =>
+    if Gen.Cast.nullGuard False (v.falsy = true) then .ok none
+    else (run v).bind fun r => .ok (some r)
+
+/-- `OrsoTypes.<T>.parse(value)`. -/
+def parse (floatOfText : List Char → Option UInt64) (t : Ty) : Option Val → Except Exc (Option Val) :=
+  parseVia (parseWith floatOfText t)
 
 /-- `parse_array` after JSON decoding: element-wise through the element type's `parse`. -/
 def parseArray (floatOfText : List Char → Option UInt64) (elem : Option Ty) :
